@@ -5,7 +5,8 @@
       - [groups_layout]: the data region is exactly the row groups in order, each exactly its column chunks in
         column order, every chunk starting at its recorded file_offset = where the previous one ended (tiling
         from offset 4 to the footer without gap or overlap); row-group total_compressed_size / total_byte_size
-        are the sums of the chunks' totals, file_offset is where the group starts, ordinals count from 0
+        are the sums of the chunks' totals, file_offset is where the group starts, ordinals count from 0 and are
+        left out from 32768 on (the field is an i16: ordinal_of)
       - [chunk_valid]: a chunk is exactly the concatenation of its pages header ++ stored body (page headers
         chain), each header carrying the stored body's length, its CRC-32, the length of the uncompressed body it
         was compressed from and a positive value count; the chunk's num_values, total_compressed_size and
